@@ -11,7 +11,7 @@ import re
 
 import vlib
 
-PROPS = ['Rangers.Props.C12Facts', 'Rangers.Props.C12']
+PROPS = ['Rangers.Props.C12Facts', 'Rangers.Props.C12', 'Rangers.Props.C12B']
 DRIVERS = ['C12']
 META = dict(
     level='proof',
